@@ -20,6 +20,9 @@ pub struct Case {
     /// what the client announced in its handshake response: (max_packet_size, character set)
     #[serde(default)]
     pub announced: Option<(u32, u8)>,
+    /// the shim lets the last RowWriter go out of scope instead of calling finish()
+    #[serde(default)]
+    pub drop_writer: bool,
 }
 
 fn type_tag(b: &Base) -> u8 {
@@ -164,7 +167,7 @@ impl Prop for C06 {
             if g.coin() {
                 rows.push(small(g));
             }
-            return Case { sets: vec![(cols, rows)], announced: Some(gen_client_announcements(g)) };
+            return Case { sets: vec![(cols, rows)], announced: Some(gen_client_announcements(g)), drop_writer: false };
         }
         let nsets = if g.chance(1, 5) { 2 } else { 1 };
         let mut sets = Vec::new();
@@ -195,7 +198,7 @@ impl Prop for C06 {
                 .collect();
             sets.push((cols, rows));
         }
-        Case { sets, announced: if g.coin() { Some(gen_client_announcements(g)) } else { None } }
+        Case { sets, announced: if g.coin() { Some(gen_client_announcements(g)) } else { None }, drop_writer: g.chance(1, 5) }
     }
     fn exec(&self, case: &Case) -> Exec {
         let mut ex = Exec::default();
@@ -204,7 +207,7 @@ impl Prop for C06 {
             .sets
             .iter()
             .enumerate()
-            .map(|(i, (cols, rows))| Step::Set { cols: cols.clone(), rows: rows.clone(), end: if i + 1 == n { SetEnd::Finish } else { SetEnd::FinishOne } })
+            .map(|(i, (cols, rows))| Step::Set { cols: cols.clone(), rows: rows.clone(), end: if i + 1 == n { if case.drop_writer { SetEnd::DropRowWriter } else { SetEnd::Finish } } else { SetEnd::FinishOne } })
             .collect();
         let mut conv = Conversation::new(vec![Cmd::Query { text: Blob::text("SELECT x") }, Cmd::Ping], vec![Action::Result(Program { steps })]);
         if let (Some((mp, cs)), HsKind::V41 { max_packet, charset, .. }) = (case.announced, &mut conv.hs.kind) {
@@ -215,6 +218,9 @@ impl Prop for C06 {
             }
         }
         // classification
+        if case.drop_writer {
+            ex.class("row-writer-dropped-instead-of-finish");
+        }
         let mut cells = 0u64;
         for (_, rows) in &case.sets {
             for r in rows {
